@@ -29,7 +29,7 @@ ASSUMPTIONS = [
 ]
 REQUIRED_CLASSES = ["w=1", "w-equals-row-length", "w-one-more-than-row", "row-shorter-than-w", "empty-row", "bit-packed", "generic", "k>=16",
                     "minimizers", "match_string", "motif", "count", "view-input", "call-history", "history-same-size-other-alphabet", "motif-alphabet-times-window>256",
-                    "large-input", "alphabet-of-fewer-than-four-letters", "plain-text-view-input"]
+                    "large-input", "alphabet-of-fewer-than-four-letters", "plain-text-view-input", "kmers-wider-than-64-bits"]
 BOUNDS = {"quick": "exhaustive core (<=3 rows, length <=4, two letters, w<=5, all functions); 400 sampled per function family; 24 inputs of 70 000 to 3 000 000 letters",
           "thorough": "exhaustive core; 20000 sampled; 42 inputs of 70 000 to 5 000 000 letters"}
 BUDGET_S = {"quick": 300, "thorough": 1500}
@@ -83,6 +83,8 @@ def classify(case):
         return True, ["large-input", "large-input-" + case["what"]]
     rows, w = case["rows"], case["w"]
     cl = [case["fn"]]
+    if case.get("fn") == "kmers" and case.get("alpha") in MAXK and case.get("k", 0) > MAXK[case["alpha"]]:
+        cl.append("kmers-wider-than-64-bits")
     if case.get("view"):
         cl.append("view-input")
         if case.get("text_input") and case.get("alpha") == "ACGT":
@@ -156,6 +158,14 @@ def check(case, stats=None):
             # (plain text handed to a DNA function is encoded on the way in: the same values are expected)
             seqs = _input(rows, None if (case.get("text_input") and case["alpha"] == "ACGT") else enc, case)
             if fn == "kmers":
+                if len(alpha) ** k > 2 ** 63:
+                    # the number of such a k-mer does not fit the 64 bits it is held in: the call refuses, or (were it to answer) answers rightly
+                    try:
+                        bnp.sequence.get_kmers(_input(rows, enc, case), k)
+                    except (ValueError, AssertionError, OverflowError):
+                        if stats is not None:
+                            stats.raised_allowed["kmers-wider-than-64-bits-refused"] += 1
+                        return []
                 res = bnp.sequence.get_kmers(seqs, k)
                 got = [list(map(int, r)) for r in res.raw().tolist()] if hasattr(res, "raw") else res.tolist()
                 want = [[code(x, alpha) for x in windows(r, k)] for r in rows]
@@ -355,6 +365,8 @@ def sampled_case(draw, fn, max_rows, max_len):
             k = draw(st.integers(1, 5 if len(chars) <= 5 else 2))
         else:
             k = draw(st.one_of(st.integers(1, 6), st.integers(1, MAXK[alpha]), st.just(MAXK[alpha])))
+            if fn == "kmers" and MAXK[alpha] < 31 and draw(st.integers(0, 3)) == 0:
+                k = MAXK[alpha] + draw(st.integers(1, 3))          # one to three letters more than 64 bits hold: refused, not wrapped around
         w = k if fn != "minimizers" else draw(st.integers(k, k + 6))
     elif fn == "match_string":
         alpha = draw(st.sampled_from([None, "ACGT", "amino"]))
